@@ -113,7 +113,8 @@ class MPSAdd(MPSIdentity):
         """
 
         def vect_fn(in_prec, in_theta_alpha):
-            v = vars(self)
+            # a copy: the cost path must not write into the live module (vmap-internal tensors)
+            v = dict(vars(self))
             v.update(out_shape)
             v['in_precision'] = in_prec
             v['in_format'] = int
